@@ -63,7 +63,7 @@ class World:
     def __init__(self, chooser=None, horizon: float = 60.0, deviations: bool = True,
                  slowcpu: bool = False, lazy_exec: bool = False, max_batches: int = 50000,
                  early: bool = True, reorder: bool = True, hold: bool = True, op_anywhere: bool = False,
-                 hold_kinds=None, op_dedup: bool = False):
+                 hold_kinds=None, op_dedup: bool = False, op_at_ticks: bool = False):
         self.loop = VLoop()
         self.chooser = chooser or DefaultChooser()
         self.horizon = horizon
@@ -77,6 +77,10 @@ class World:
         # op_dedup: a held user call is offered again only when the harness' abstract state (state_fn) changed since
         # it was last offered (boundaries of idle periodic work are equivalent placements) or a time-out just fired
         self.op_dedup = op_dedup
+        # op_at_ticks: a held user call may also land in the very iteration in which a periodic background tick
+        # (management cycle, settings poll) fires
+        self.op_at_ticks = op_at_ticks
+        self._op_tick_key = None
         self._op_offer_key = None
         self.lazy_exec = lazy_exec
         self.max_batches = max_batches
@@ -301,9 +305,17 @@ class World:
                     self.trace.append(f'slowcpu@{when:.4f}')
                 # a held event may arrive in the very iteration the time-out fires
                 self._offer_held = (not periodic) and bool(self._heads(True))
-                if self._offer_held:
+                tick_ops = []
+                if periodic and self.op_anywhere and self.op_at_ticks:
+                    tick_ops = [ev for ev in self._heads(True) if ev.kind == 'op']
+                    if tick_ops and self.op_dedup and self.state_fn is not None:
+                        key = self.state_fn()
+                        if key == self._op_tick_key:
+                            tick_ops = []        # same abstract state as at the last tick where this was offered
+                        self._op_tick_key = key
+                if self._offer_held or tick_ops:
                     opts2 = [('keep', 0, None)] + [
-                        (f'unhold-before:{ev.key}', 0, ev) for ev in self._heads(True)]
+                        (f'unhold-before:{ev.key}', 0, ev) for ev in (self._heads(True) if self._offer_held else tick_ops)]
                     c2 = self._choose('held', opts2)
                     if c2:
                         ev = opts2[c2][2]
